@@ -572,6 +572,74 @@ fn refused_secrets(rec: &mut Rec, _ctx: &Ctx, idx: u64, rng: &mut ChaCha20Rng) {
   }
 }
 
+/// the convenience dealer that draws from the thread RNG: the same secret dealt
+/// repeatedly must give valid sharings whose non-constant coefficients are fresh
+/// draws (a run-global set of all coefficients seen)
+fn std_dealer(rec: &mut Rec, _ctx: &Ctx, idx: u64, rng: &mut ChaCha20Rng, seen: &std::sync::Mutex<HashSet<Vec<u8>>>) {
+  let t: u32 = rng.gen_range(2..=6);
+  let k = rng.gen_range(1..=3usize);
+  let elems: Vec<BigUint> = (0..k).map(|_| elem_choices(rng)).collect();
+  let mut secret = Vec::new();
+  for e in &elems {
+    secret.extend_from_slice(&bf::to_le24(e));
+  }
+  let sh = Sharks(t);
+  rec.evals += 1;
+  rec.case(&("std-dealer", t, k, idx % 4));
+  for round in 0..2 {
+    rec.ev("std_dealer");
+    let shares: Vec<Share> = match sh.dealer(&secret) {
+      Ok(ev) => ev.take(t as usize + 1).collect(),
+      Err(e) => {
+        rec.violation("dealer-refused", format!("Sharks::dealer refused an in-range secret: {}", e), json!({"secret": hex(&secret), "t": t}));
+        return;
+      }
+    };
+    let rp = |why: &str| json!({"why": why, "t": t, "round": round, "secret": hex(&secret), "shares": shares.iter().map(share_json).collect::<Vec<_>>()});
+    if shares.iter().any(|s| bool::from(s.x.is_zero()) || s.y.len() != k) {
+      rec.violation("x-zero:std-dealer", "a share of Sharks::dealer has x = 0 or the wrong number of values".into(), rp("x-zero"));
+      return;
+    }
+    for j in 0..k {
+      let pts: Vec<(BigUint, BigUint)> = shares[..t as usize].iter().map(|s| (of_fp(&s.x), of_fp(&s.y[j]))).collect();
+      let co = match bf::interpolate_coeffs(&pts) {
+        Some(c) => c,
+        None => {
+          rec.violation("x-repeat:std-dealer", "shares of one dealer repeat an evaluation point".into(), rp("x-repeat"));
+          return;
+        }
+      };
+      rec.ev("horner_check");
+      let last = &shares[t as usize];
+      if co[0] != elems[j] || bf::eval_low_first(&co, &of_fp(&last.x)) != of_fp(&last.y[j]) {
+        rec.violation("evaluation-wrong:std-dealer", format!("shares of Sharks::dealer do not lie on one polynomial of degree t-1 with the secret element {} as constant term", j), rp("polynomial"));
+        return;
+      }
+      let mut g = seen.lock().unwrap();
+      for c in co[1..].iter() {
+        rec.ev("std_dealer_coefficient");
+        if !g.insert(c.to_bytes_le()) {
+          drop(g);
+          rec.violation(
+            "coefficient-repeat:std-dealer",
+            format!("a non-constant coefficient ({}) dealt by Sharks::dealer was seen before in this run: coefficients are not separate draws from the random source", c),
+            rp("coefficient-repeat"),
+          );
+          return;
+        }
+      }
+    }
+    rec.ev("recover");
+    match sh.recover(&shares[1..]) {
+      Ok(b) if b == secret => {}
+      other => {
+        rec.violation("recover-wrong:std-dealer", format!("t shares of Sharks::dealer recovered {:?}", other.map(|b| hex_short(&b))), rp("recover"));
+        return;
+      }
+    }
+  }
+}
+
 pub fn run(ctx: &Ctx) -> Rec {
   let n = ctx.n(3000, 150_000);
   let mut rec = par_run(ctx, "dealing", n, |rec, i, rng| dealing(rec, ctx, i, rng));
@@ -582,5 +650,7 @@ pub fn run(ctx: &Ctx) -> Rec {
   let tmax = if ctx.thorough() { 1400 } else { 320 };
   rec.merge(par_run(ctx, "threshold-sweep", tmax, |rec, i, rng| threshold_sweep(rec, ctx, tmax - 1 - i, rng)));
   rec.note("threshold_sweep_max", json!(tmax));
+  let seen = std::sync::Mutex::new(HashSet::new());
+  rec.merge(par_run(ctx, "std-dealer", ctx.n(1500, 60_000), |rec, i, rng| std_dealer(rec, ctx, i, rng, &seen)));
   rec
 }
